@@ -96,6 +96,29 @@ def run(ctx):
         if st in ("emit", "build"):
             ctx.fail(e["symptom"], {"src": c["body"], "diagnostic": e["detail"]},
                      "accepted by the checker but the generated project does not build", tags=c["tags"])
+    # ---------------------------------------------------------------- derive forms (spec/MC_Manifest.tla DeriveForms): built ALONE, one project
+    # each, because the feature detection that decides the manifest looks at the whole program
+    from lib.checks import c15
+    dcases = []
+    for feat in ("dser", "dde"):
+        for form in ("alone", "listed", "stacked", "class"):
+            decl = c15.derive_form(c15.DECLS[feat], feat, form).replace("{S}", "{N}").replace("pub ", "")
+            dcases.append({"id": f"dv-{feat}-{form}", "decls": decl, "body": ["println(1)"], "aborts": False, "kind": "derive",
+                           "expect": {"out": [{"t": "int", "iv": 1}], "status": "done", "err": ""},
+                           "tags": ["derive-form:" + form, "derive:" + feat]})
+    if ctx.quick:
+        dcases = [c for c in dcases if c["tags"][0] != "derive-form:alone"][:6]
+    with ctx.timed("derive_forms"):
+        dev = pipeline.evaluate(ctx, dcases, per_batch=1)
+    for c, e in zip(dcases, dev):
+        stats["derive:" + e["stage"]] = stats.get("derive:" + e["stage"], 0) + 1
+        if e["stage"] == "check":
+            continue
+        n_accepted += 1
+        distinct.add(c["decls"])
+        if e["stage"] in ("emit", "build"):
+            ctx.fail(e["symptom"], {"src": c["decls"].replace("{N}", ""), "diagnostic": e["detail"]},
+                     "accepted by the checker but the generated project does not build", tags=c["tags"])
     # ---------------------------------------------------------------- corpus: the repository's own single-file programs
     files = sorted(glob.glob(os.path.join(common.VERIF, "corpus", "repo", "**", "*.incn"), recursive=True))
     files = [f for f in files if "/invalid/" not in f]
